@@ -440,6 +440,54 @@ func (g Graph) RenderFlat() string {
 	return string(b)
 }
 
+// RenderSplit writes the same graph as a still context-free, still "flat" document, but one a JSON-LD processor has to work on:
+// some nodes are described by TWO node objects with the same @id (the second at the end of the document, carrying the rest of the
+// properties and sometimes the types), and the nodes sit under a lone "@graph" key. A JSON-LD processor merges node objects with
+// one @id into one node, so the graph is the same one RenderFlat writes.
+func (g Graph) RenderSplit(r *G) string {
+	var nodes, tail []any
+	for _, n := range g {
+		o := map[string]any{"@id": n.Id}
+		var o2 map[string]any
+		if len(n.Props) >= 1 && r.coin(0.6) {
+			o2 = map[string]any{"@id": n.Id}
+		}
+		typesLater := o2 != nil && len(n.Props) >= 2 && r.coin(0.4)
+		if len(n.Types) > 0 {
+			if typesLater {
+				o2["@type"] = n.Types
+			} else {
+				o["@type"] = n.Types
+			}
+		}
+		cut := len(n.Props)
+		if o2 != nil {
+			cut = r.n(len(n.Props)) // the FIRST object gets props[:cut] (possibly none), the later one the rest (at least one)
+		}
+		for k, p := range n.Props {
+			var vs []any
+			for _, v := range p.Vals {
+				vs = append(vs, valJSON(v))
+			}
+			if k < cut {
+				o[p.Iri] = vs
+			} else {
+				o2[p.Iri] = vs
+			}
+		}
+		nodes = append(nodes, o)
+		if o2 != nil {
+			tail = append(tail, o2)
+		}
+	}
+	nodes = append(nodes, tail...)
+	if nodes == nil {
+		nodes = []any{}
+	}
+	b, _ := json.Marshal(map[string]any{"@graph": nodes})
+	return string(b)
+}
+
 // ---------- report reading ----------
 
 type ReportView struct {
